@@ -56,7 +56,12 @@ func (g *ggen) scalar() *doc.Node {
 	g.uid++
 	switch g.r.IntN(5) {
 	case 0:
-		return doc.I(int64(g.r.IntN(50)))
+		n := doc.I(int64(g.r.IntN(50)))
+		if !g.o.StringKeys && g.r.IntN(3) == 0 {
+			// a spelling that is not the canonical decimal one (matters when the scalar is used as a key through an alias)
+			n.IntForm = []string{fmt.Sprintf("0x%x", n.Int), fmt.Sprintf("0o%o", n.Int), fmt.Sprintf("+%d", n.Int), fmt.Sprintf("0b%b", n.Int)}[g.r.IntN(4)]
+		}
+		return n
 	case 1:
 		return doc.B(g.r.IntN(2) == 0)
 	case 2:
